@@ -324,7 +324,35 @@ def blend_case(rng) -> Dict[str, Any]:
     return gen_case(rng)
 
 
+# seed-independent core: inputs on which the pinned tree (or an intermediate repair) failed
+CORE = [
+    {"kind": "list", "family": "core", "style": "wide", "ctx": None,
+     "terms": [gen.T({"o1": 0.3333, "e": 250000.0}, -0.0001), gen.T({"o1": -1000000.0, "E1": -0.3333, "e": 1000000.0},
+                                                                   0.0101)]},
+    {"kind": "list", "family": "core", "style": "wide",
+     "terms": [{"c": {"e": -0.0100999899, "a": -250000.0}, "k": 500000.10985999997},
+               {"c": {"c": 0.3333, "a": -0.3333, "e": 791400.0}, "k": 1582800.9006999999},
+               {"c": {"a": 0.02}, "k": 340.4}],
+     "ctx": [{"c": {"e": -0.0101, "a": -250000.0}, "k": 500000.10985999997}]},
+    {"kind": "list", "family": "core", "style": "int", "terms": [{"c": {}, "k": 0.0}, {"c": {}, "k": 1.0},
+                                                                 {"c": {}, "k": 2.5}], "ctx": [{"c": {}, "k": 1.0}]},
+    {"kind": "list", "family": "core", "style": "float",
+     "terms": [{"c": {"Sal": 0.03076722090261283, "xRFP": -1.0}, "k": -0.0229904988123516},
+               {"c": {"Sal": -0.03076722090261283, "xRFP": 1.0}, "k": 0.0229904988123516},
+               {"c": {"aTc": 88.84821428571429, "dCas9": -1.0}, "k": -0.15502678571428574},
+               {"c": {"aTc": -88.84821428571429, "dCas9": 1.0}, "k": 0.15502678571428574}],
+     "ctx": [{"c": {"Sal": 1.0}, "k": 43.0}, {"c": {"Sal": -1.0}, "k": -0.9}, {"c": {"aTc": 1.0}, "k": 0.0129999999999999},
+             {"c": {"aTc": -1.0}, "k": -0.0018000000000000238}]},
+]
+
+
 def run(ctx: Ctx) -> None:
+    import copy
+
+    for k, case in enumerate(CORE):
+        if ctx.mine(k):
+            run_case(ctx, copy.deepcopy(case))
+            ctx.count("core_cases")
     for _ in range(ctx.n(12000, 250000)):
         if ctx.out_of_time():
             break
